@@ -118,7 +118,7 @@ func H_C23_duration() {
 // digits) followed by no, 0, 1, 9 or 10 fractional digits.
 // Shapes are case-split, digits are symbolic.
 //
-//verif:props=C23 bounds=sign?+intdigits-in{0..13,18,19,20}+fracdigits-in{none,0,1,9,10} solver=cvc5-int timeout=20000
+//verif:props=C23 bounds=sign?+intdigits-in{0..13,18,19,20}+fracdigits-in{none,0,1,9,10} solver=cvc5-int timeout=20000 deadline=1500
 func H_C23_duration_long() {
 	ni := nd.Int(0, 16)
 	if ni > 13 {
